@@ -3,7 +3,7 @@ import core
 from props import _hist
 
 RULE = ("case = one injector lifetime: a seeded random history of 0-12 installs over a pool of 80 targets (synthetic arena functions at "
-        "16-byte pitch incl. a page-straddling one, Rust fns, generic instantiations, a method, libc abs/labs/atoi, async polls) with "
+        "16-byte pitch incl. a page-straddling one, Rust fns (three of them named through one shared func! call site), generic instantiations (named through one generic helper), a method, libc abs/labs/atoi, async polls) with "
         "repetition of the same target, kinds raw/closure/fake!/fake!+times/boolean/async/unchecked, calls after every install checked "
         "against a stack model (most recent wins), exit normal / by unwinding / by a count-verification panic / by an over-call panic; "
         "after exit the 32-byte image of every target and the whole arena equal the pre-lifetime images and every target returns its "
